@@ -37,7 +37,9 @@ ASSUMPTIONS = [
 @st.composite
 def c09_case(draw):
     n = draw(st.integers(1, 4))
-    mids = draw(st.lists(st.sampled_from(["mul", "add", "div", "probe", "square", "sweep"]), min_size=1, max_size=4))
+    mids = draw(st.lists(st.sampled_from(["mul", "add", "div", "probe", "square", "sweep", "sweep_ctx"]), min_size=1, max_size=4))
+    if mids.count("sweep_ctx") > 1:
+        mids = [m for i, m in enumerate(mids) if m != "sweep_ctx" or i == mids.index("sweep_ctx")]
     fail_at = draw(st.sampled_from([None, None, 0, 1, 2, 3]))
     if fail_at is not None and "div" not in mids:
         mids.append("div")
@@ -75,6 +77,12 @@ def materialise(case: Dict[str, Any]) -> Dict[str, Any]:
             nodes.append({"p": "FloatCollectValueProbe", "context_key": "c"})
         elif m == "square":
             nodes.append({"p": "FloatSquareOperation"})
+        elif m == "sweep_ctx":
+            # a sweep over a sequence taken from the context: the run space gives every run its own list
+            nodes.append({"p": "FloatAddOperation", "sweep": {"vars": {"t": {"kind": "ctx", "key": "seq"}}, "params": {"addend": "2 * t"},
+                                                               "mode": "combinatorial", "broadcast": False, "collection": "FloatDataCollection"}})
+            nodes.append({"p": "FloatCollectionSumOperation"})
+            keys.append("seq")
         elif m == "sweep":
             nodes.append({"p": "FloatAddOperation", "sweep": {"vars": {"t": {"kind": "values", "values": [1.0, 2.0]}}, "params": {"addend": "2 * t"},
                                                                "mode": "combinatorial", "broadcast": False, "collection": "FloatDataCollection"}})
@@ -87,7 +95,7 @@ def materialise(case: Dict[str, Any]) -> Dict[str, Any]:
     first_keys = [k for k in keys if k not in second_keys]
     fail_at = case["fail_at"] if (case["fail_at"] is not None and "divisor" in keys and case["fail_at"] < n) else None
     vals = {"idx": list(range(n)), "value": [float(3 + i) for i in range(n)], "factor": [2.0 + i for i in range(n)],
-            "addend": [0.5 + i for i in range(n)], "divisor": [(0.0 if fail_at == i else 2.0 + i) for i in range(n)]}
+            "addend": [0.5 + i for i in range(n)], "seq": [[1.5 + i + j for j in range(1 + (i + 1) % 3)] for i in range(n)], "divisor": [(0.0 if fail_at == i else 2.0 + i) for i in range(n)]}
     blocks: List[Dict[str, Any]] = [{"mode": "by_position", "context": {k: vals[k] for k in first_keys}}]
     if case.get("unicode"):
         # an extra (unused) context key with non-ASCII text: the spec ID must still agree between inspect and the trace
@@ -193,6 +201,8 @@ def check_case(case: Dict[str, Any], col: Collector, workroot: str = ".") -> Non
             labs.append("source_file")
         if any(m == "sweep" for m in case["mids"]):
             labs.append("sweep")
+        if any(m == "sweep_ctx" for m in case["mids"]):
+            labs.append("sweep_from_context_per_run")
         if case.get("unicode"):
             labs.append("non_ascii_values")
         feats0 = {"out": case["out"]}
@@ -272,6 +282,12 @@ def check_case(case: Dict[str, Any], col: Collector, workroot: str = ".") -> Non
         insp_spec = inspect_spec_id(d)
         if starts and insp_spec != trace_spec:
             bad("spec_id_inspect_differs_from_trace", {}, insp_spec, trace_spec)
+        # the same file inspected from another working directory (its parent): the ID belongs to the file, not to the caller's cwd
+        r_other = clidrv.run_inprocess(["inspect", os.path.join(os.path.basename(d), "p.yaml")], os.path.dirname(d))
+        m_other = re.search(r"Run-Space Config ID:\s*(\S+)", r_other["stdout"])
+        insp_other = m_other.group(1) if m_other and m_other.group(1).lower() != "none" else None
+        if starts and insp_other != trace_spec:
+            bad("spec_id_inspect_differs_from_trace", {"inspect_cwd": "parent_directory", "source_file": bool(mat["spec"]["files"])}, insp_other, trace_spec)
         rnd = random.Random(case["rw"]["seed"])
         rw = yamlrw.rewrite(L["cfg"], rnd, list(case["rw"]["kinds"]))
         changed = False
@@ -395,7 +411,7 @@ def replay(case: Dict[str, Any]) -> List[Dict[str, Any]]:
 
 def valid(case: Any) -> bool:
     try:
-        return 1 <= case["n"] <= 4 and all(m in ("mul", "add", "div", "probe", "square", "sweep") for m in case["mids"]) and len(case["mids"]) >= 1 \
+        return 1 <= case["n"] <= 4 and all(m in ("mul", "add", "div", "probe", "square", "sweep", "sweep_ctx") for m in case["mids"]) and len(case["mids"]) >= 1 \
             and case["second"] in (None, "inline", "csv") and case["out"] in ("file", "dir") and case["launch"] in ("explicit", "idem", "generated") \
             and 1 <= case["attempt"] <= 3 and case["combine"] in ("combinatorial", "by_position") and case["second_mode"] in ("combinatorial", "by_position") \
             and (case["fail_at"] is None or ("div" in case["mids"] and 0 <= case["fail_at"] <= 3)) and case["value_src"] in ("config", "context") \
@@ -427,4 +443,4 @@ def shrink_candidates(case):
 
 def label_requirements(tier: str) -> Dict[str, Any]:
     return {"failing_run": 0.1, "source_file": 0.05, "out:file": 0.3, "out:dir": 0.3, "launch:explicit": 0.2, "launch:idem": 0.2,
-            "launch:generated": 0.2, "sweep": 0.1, "non_ascii_values": 0.1}
+            "launch:generated": 0.2, "sweep": 0.1, "sweep_from_context_per_run": 0.05, "non_ascii_values": 0.1}
